@@ -68,7 +68,7 @@ def floors(tier):
 
 
 def n_cases(tier):
-    return 2400 if tier == 'quick' else 80000
+    return 2400 if tier == 'quick' else 50000
 
 
 def lib(kind):
